@@ -1140,10 +1140,16 @@ impl LineBuf {
 		Some((start,end))
 	}
 	pub fn select_lines_down(&mut self, n: usize) -> Option<(usize,usize)> {
+		if n == 0 {
+			// Just the cursor line, which may be the last one
+			return Some(self.this_line())
+		}
 		if self.end_of_line() == self.cursor.max {
 			return None
 		}
-		let target_line = self.cursor_line_number() + n;
+		// With lines below, a count that is too large takes what there is
+		// (the position after the final newline is not a line)
+		let target_line = (self.cursor_line_number() + n).min(self.last_line_number());
 		let start = self.start_of_line();
 		let (_,end) = self.line_bounds(target_line)?;
 
@@ -3284,20 +3290,30 @@ impl LineBuf {
 				RegisterContent::Line(line_content)
 			}
 			_ => {
-				let Some((start,end)) = self.range_from_motion(motion) else {
+				let Some((start,mut end)) = self.range_from_motion(motion) else {
 					return RegisterContent::Empty
 				};
-				if should_drain {
+				// 'dd', 'yy', 'dj', 'dG' and the like work on whole lines, and so does a later 'p'
+				let linewise = matches!(motion, MotionKind::InclusiveWithTargetCol(..) | MotionKind::LineOffset(_));
+				if linewise && verb == &Verb::Change && end > start && self.grapheme_at(end - 1) == Some("\n") {
+					// 'cc' empties the line, it does not remove it
+					end -= 1;
+				}
+				let content = if should_drain {
 					// If we are deleting or changing, we need to drain the content
 					// and update the grapheme indices
 					let drained = self.drain(start,end);
 					self.update_graphemes();
-					RegisterContent::Span(drained)
+					drained
 				} else {
 					// If we are yanking, we just need to get the content
-					let content = self.slice(start..end)
+					self.slice(start..end)
 						.map(|s| s.to_string())
-						.unwrap_or_default();
+						.unwrap_or_default()
+				};
+				if linewise {
+					RegisterContent::Line(content)
+				} else {
 					RegisterContent::Span(content)
 				}
 			}
@@ -3309,6 +3325,8 @@ impl LineBuf {
 			Verb::Delete |
 			Verb::Yank |
 			Verb::Change => {
+				// where the text that is taken starts (the range cannot be asked for once the text is gone)
+				let range_start = self.range_from_motion(&motion).map(|(start,_)| start);
 				let content = self.get_register_content(&verb, &motion);
 				register.write_to_register(content);
 				if let Some(SelectRange::TwoDim(sel)) = self.select_range.as_ref() {
@@ -3321,6 +3339,10 @@ impl LineBuf {
 					}
 				} else {
 					match motion {
+						MotionKind::InclusiveWithTargetCol((start,end),_) if verb == Verb::Change => {
+							// the emptied line is where the typing goes
+							self.cursor.set(start.min(end));
+						}
 						MotionKind::ExclusiveWithTargetCol((_,_),pos) |
 							MotionKind::InclusiveWithTargetCol((_,_),pos) => {
 								let (start,end) = self.this_line();
@@ -3328,7 +3350,7 @@ impl LineBuf {
 								self.cursor.add(end.min(pos));
 							}
 						_ => {
-							let Some((start,_)) = self.range_from_motion(&motion) else {
+							let Some(start) = range_start else {
 								self.move_cursor(motion);
 								return Ok(())
 							};
@@ -3534,9 +3556,15 @@ impl LineBuf {
 								Anchor::After => self.end_of_line(),
 								Anchor::Before => self.start_of_line()
 							};
+							let put_below = matches!(anchor, Anchor::After);
 							self.insert_register_content(insert_idx, content, anchor);
-							let down_line = self.eval_motion(None, MotionCmd(1,Motion::LineDownCharwise));
-							self.move_cursor(down_line);
+							if put_below {
+								let down_line = self.eval_motion(None, MotionCmd(1,Motion::LineDownCharwise));
+								self.move_cursor(down_line);
+							} else {
+								// 'P' puts the lines above, where the cursor line used to start
+								self.cursor.set(insert_idx);
+							}
 							let first_non_ws = self.eval_motion(None, MotionCmd(1,Motion::FirstGraphicalOnScreenLine));
 							self.move_cursor(first_non_ws);
 						} else {
